@@ -120,6 +120,28 @@ def seq_groups(res):
             scs.append({"id": sid, "ops": ops})
             sid += 1
         groups.append((cfg, scs))
+    # one bulk history: an old table that holds more live entries than compaction moves per call (1001) next to >= 40%
+    # garbage, then a second table, compaction to completion, conditional Puts and reads
+    d = "c01bulk"
+    ops = []
+    small = [dmaplib.hx("s%04d" % i) for i in range(1300)]
+    for k in small:
+        ops.append({"op": "put", "c": "emb@owner", "d": d, "k": k, "v": dmaplib.hx("x")})
+    big = [dmaplib.hx("g%04d" % i) for i in range(600)]
+    for k in big:
+        ops.append({"op": "put", "c": "emb@owner", "d": d, "k": k, "v": dmaplib.hx("G" * 60)})
+    for k in big:
+        ops.append({"op": "del", "c": "emb@owner", "d": d, "k": k})
+    for i in range(500):
+        ops.append({"op": "put", "c": "emb@owner", "d": d, "k": dmaplib.hx("t%04d" % i), "v": dmaplib.hx("T" * 60)})
+    for _ in range(4):
+        ops.append({"op": "compact", "m": 0, "d": d})
+    for k in small[::7] + big[::50]:
+        ops.append({"op": "get", "c": "cc", "d": d, "k": k})
+    for k in small[3::97]:
+        ops.append({"op": "put", "c": "cc", "d": d, "k": k, "v": dmaplib.hx("n"), "nx": True})
+        ops.append({"op": "get", "c": "emb@owner", "d": d, "k": k})
+    groups.append(({"members": 1, "replicas": 1, "partitions": 1, "table": 1 << 17, "evict_workers": 1}, [{"id": sid, "ops": ops}]))
     return groups
 
 
